@@ -96,6 +96,10 @@ fn main() {
                 "sysv" => gen2::gen_hash("sysv", &mut rng, n, thorough),
                 "gnu" => gen2::gen_hash("gnu", &mut rng, n, thorough),
                 "symver" => gen2::gen_symver(&mut rng, n, thorough),
+                "verorder" => gen5::gen_verorder(&mut rng, n, thorough),
+                "bigfault" => gen4::gen_bigfault(&mut rng, n, thorough),
+                "ehdr" => gen::gen_ehdr(&mut rng, n, thorough),
+                "filehdr" => gen4::gen_filehdr(&mut rng, n, thorough),
                 "file" => gen3::gen_file(&mut rng, n, thorough),
                 "bigfile" => gen3::gen_bigfile(&mut rng, n, thorough),
                 "prefix" => gen3::gen_prefix(&mut rng, n, thorough),
